@@ -114,11 +114,16 @@ def install_spelling(case):
         Species._replacement = dict(chem.UPPER_REPLACEMENT)
         Species.set_known_elements(list(chem.UPPER_ELEMENTS))
         Species.set_known_pseudoelements(list(chem.UPPER_PSEUDO))
+    elif case.get("spelling") == "isotopes":
+        Species.set_known_elements(list(chem.DEFAULT_ELEMENTS) + list(chem.ISOTOPE_ELEMENTS))
+        Species.set_known_pseudoelements(["CR", "CRP", "XRAY", "Photon", "PHOTON", "CRPHOT", "o", "p", "m"])
 
 
 def spelling_kwargs(case) -> dict:
     if case.get("spelling") == "upper_replace":
         return dict(elements=list(chem.UPPER_ELEMENTS), pseudo_elements=list(chem.UPPER_PSEUDO))
+    if case.get("spelling") == "isotopes":
+        return dict(elements=list(chem.DEFAULT_ELEMENTS) + list(chem.ISOTOPE_ELEMENTS), pseudo_elements=["CR", "CRP", "XRAY", "Photon", "PHOTON", "CRPHOT", "o", "p", "m"])
     return {}
 
 
